@@ -25,10 +25,12 @@ VARIABLES
   q,        \* entries handed to the remover and not yet unlinked, oldest first (from Queue events)
   pendq,    \* entries handed over during the index operation in progress
   evcur,    \* entry the remover has unlinked but not yet accounted (<<>> if none)
+  fname,    \* element id |-> file name of its current value (FileName evaluated once, at Add)
+  lost,     \* files the driver removed behind the cache's back (FileLost events)
   cnt,      \* byte counters of the removal backlog: [a, s, d, dprev, pend]
   track     \* TRUE iff this trace carries file/request events (a diskCache, not a bare SizedLRU)
 
-vars == <<l, L, eid, held, depth, files, q, pendq, evcur, cnt, track>>
+vars == <<l, L, eid, held, depth, files, q, pendq, evcur, cnt, track, lost, fname>>
 
 Ev == Trace[l]
 
@@ -36,6 +38,8 @@ Chk(cond, tag) == IF cond THEN TRUE ELSE Assert(FALSE, <<"REJECT", tag, "line", 
 
 Get0(f, k) == IF k \in DOMAIN f THEN f[k] ELSE 0
 Set(f, k, v) == (k :> v) @@ f
+\* like Set, but a zero entry is dropped (keeps per-goroutine maps small)
+Set0(f, k, v) == IF v = 0 THEN [x \in (DOMAIN f) \ {k} |-> f[x]] ELSE Set(f, k, v)
 
 -----------------------------------------------------------------------------
 \* file naming (cache/disk/disk.go FileLocation), relative to the cache dir
@@ -89,7 +93,7 @@ TraceReset ==
   /\ IsEvent("Reset")
   /\ L' = NewLru(Ev.max, Ev.hl)
   /\ eid' = <<>> /\ held' = <<>> /\ depth' = <<>> /\ files' = <<>>
-  /\ evcur' = <<>> /\ q' = <<>> /\ pendq' = <<>> /\ cnt' = Cnt0 /\ track' = Ev.track
+  /\ evcur' = <<>> /\ q' = <<>> /\ pendq' = <<>> /\ cnt' = Cnt0 /\ track' = Ev.track /\ lost' = {} /\ fname' = <<>>
 
 TraceAdd ==
   /\ IsEvent("Add")
@@ -109,7 +113,8 @@ TraceAdd ==
                      /\ files' = files
                 ELSE files' = Set(files, fn, [state |-> "complete", owner |-> ""])
            ELSE files' = files
-        /\ UNCHANGED <<held, depth, q, evcur, track>>
+        /\ fname' = IF r.ok /\ track /\ Ev.key \in DOMAIN r.L.cmap THEN Set(fname, r.L.cmap[Ev.key], fn) ELSE fname
+        /\ UNCHANGED <<held, depth, q, evcur, track, lost>>
 
 TraceGet ==
   /\ IsEvent("Get")
@@ -122,7 +127,7 @@ TraceGet ==
                        Chk(ent.lsz = Ev.size /\ ent.dsz = Ev.dsz /\ ent.rnd = Ev.rnd /\ ent.legacy = Ev.legacy,
                            "C07:lookupValue")
         /\ L' = Clr(r.L) /\ OpEnd(r.L)
-  /\ UNCHANGED <<eid, held, depth, files, q, evcur, track>>
+  /\ UNCHANGED <<eid, held, depth, files, q, evcur, track, lost, fname>>
 
 TraceReserve ==
   /\ IsEvent("Reserve")
@@ -141,8 +146,8 @@ TraceReserve ==
         /\ Chk((r.code = 0) = Ev.ok, IF r.code = 507 \/ (r.code = 0 /\ LL.hl > 0) THEN "C17:admission" ELSE "C05:reserveAccepted")
         /\ Scalars(r.L) /\ Victims(r.L)
         /\ L' = Clr(r.L) /\ OpEnd(r.L)
-        /\ held' = IF r.code = 0 /\ Ev.size > 0 THEN Set(held, g, Get0(held, g) + Ev.size) ELSE held
-  /\ UNCHANGED <<eid, depth, files, q, evcur, track>>
+        /\ held' = IF r.code = 0 /\ Ev.size > 0 THEN Set0(held, g, Get0(held, g) + Ev.size) ELSE held
+  /\ UNCHANGED <<eid, depth, files, q, evcur, track, lost, fname>>
 
 TraceUnreserve ==
   /\ IsEvent("Unreserve")
@@ -152,8 +157,8 @@ TraceUnreserve ==
         /\ Chk(Ev.size > 0 => Get0(held, g) >= Ev.size, "C03:unreserveNotHeld")
         /\ Scalars(r.L)
         /\ L' = Clr(r.L) /\ OpEnd(r.L)
-        /\ held' = IF r.ok /\ Ev.size > 0 THEN Set(held, g, Get0(held, g) - Ev.size) ELSE held
-  /\ UNCHANGED <<eid, depth, files, q, evcur, track>>
+        /\ held' = IF r.ok /\ Ev.size > 0 THEN Set0(held, g, Get0(held, g) - Ev.size) ELSE held
+  /\ UNCHANGED <<eid, depth, files, q, evcur, track, lost, fname>>
 
 \* RemoveElement / RemoveKey from outside the index (a reader dropping a broken entry)
 TraceRemove ==
@@ -171,7 +176,7 @@ TraceRemove ==
            /\ Chk(e \in Range(LL.ll), "C07:staleElementRemoved")
            /\ Scalars(r) /\ L' = Clr(r) /\ OpEnd(r)
      \/ /\ Len(Ev.victims) > 1 /\ Chk(FALSE, "C07:removeManyVictims") /\ L' = L /\ UNCHANGED <<pendq, cnt>>
-  /\ UNCHANGED <<eid, held, depth, files, q, evcur, track>>
+  /\ UNCHANGED <<eid, held, depth, files, q, evcur, track, lost, fname>>
 
 \* an entry is handed to the background remover (under the lock, mid-operation)
 TraceQueue ==
@@ -180,7 +185,7 @@ TraceQueue ==
      /\ q' = Append(q, ent)
      /\ pendq' = Append(pendq, ent)
      /\ cnt' = [cnt EXCEPT !.a = @ + Ev.dsz, !.pend = @ + Ev.dsz]
-  /\ UNCHANGED <<L, eid, held, depth, files, evcur, track>>
+  /\ UNCHANGED <<L, eid, held, depth, files, evcur, track, lost, fname>>
 
 \* the background remover: unlink, then subtract from the backlog counter
 TraceEvictStart ==
@@ -192,16 +197,16 @@ TraceEvictStart ==
   /\ evcur' = <<Head(q)>>
   /\ q' = Tail(q)
   /\ cnt' = [cnt EXCEPT !.s = @ + Ev.dsz]
-  /\ UNCHANGED <<L, eid, held, depth, files, pendq, track>>
+  /\ UNCHANGED <<L, eid, held, depth, files, pendq, track, lost, fname>>
 
 TraceEvictDone ==
   /\ IsEvent("EvictDone")
   /\ Chk(evcur # <<>> /\ evcur[1].key = Ev.key /\ evcur[1].rnd = Ev.rnd, "C04:removalDone")
   /\ evcur' = <<>>
   /\ cnt' = [cnt EXCEPT !.d = @ + Ev.dsz]
-  /\ UNCHANGED <<L, eid, held, depth, files, q, pendq, track>>
+  /\ UNCHANGED <<L, eid, held, depth, files, q, pendq, track, lost, fname>>
 
-IndexedNames == {FileName(L.elems[L.ll[i]]) : i \in DOMAIN L.ll}
+IndexedNames == {fname[L.ll[i]] : i \in DOMAIN L.ll}
 QueuedNames  == {FileName(q[i]) : i \in DOMAIN q} \cup {FileName(evcur[i]) : i \in DOMAIN evcur}
 \* entries whose hand-over is logged but whose index operation has not ended yet
 \* are still in L
@@ -211,38 +216,46 @@ TraceFileCreate ==
   /\ IsEvent("FileCreate")
   /\ Chk(Ev.path \notin DOMAIN files, "C04:fileCreatedTwice")
   /\ files' = Set(files, Ev.path, [state |-> "created", owner |-> Ev.g])
-  /\ UNCHANGED <<L, eid, held, depth, q, pendq, evcur, cnt, track>>
+  /\ UNCHANGED <<L, eid, held, depth, q, pendq, evcur, cnt, track, lost, fname>>
 
 TraceFileComplete ==
   /\ IsEvent("FileComplete")
   /\ Chk(Ev.path \in DOMAIN files /\ files[Ev.path].owner = Ev.g, "C04:completeUnknownFile")
   /\ files' = [files EXCEPT ![Ev.path].state = "complete"]
-  /\ UNCHANGED <<L, eid, held, depth, q, pendq, evcur, cnt, track>>
+  /\ UNCHANGED <<L, eid, held, depth, q, pendq, evcur, cnt, track, lost, fname>>
 
 TraceFileRemove ==
   /\ IsEvent("FileRemove")
   \* never unlink the file of an entry that is still indexed
   /\ Chk(Ev.path \in IndexedNames => Ev.path \in PendNames, "C04:indexedFileRemoved")
   /\ files' = [p \in (DOMAIN files) \ {Ev.path} |-> files[p]]
-  /\ UNCHANGED <<L, eid, held, depth, q, pendq, evcur, cnt, track>>
+  /\ UNCHANGED <<L, eid, held, depth, q, pendq, evcur, cnt, track, lost, fname>>
+
+\* the driver removes a file behind the cache's back (a lost file, as after a
+\* crash or an operator's mistake); readers must drop the entry cleanly
+TraceFileLost ==
+  /\ IsEvent("FileLost")
+  /\ files' = [p \in (DOMAIN files) \ {Ev.path} |-> files[p]]
+  /\ lost' = lost \cup {Ev.path}
+  /\ UNCHANGED <<L, eid, held, depth, q, pendq, evcur, cnt, track, fname>>
 
 TraceReqBegin ==
   /\ IsEvent("ReqBegin")
   /\ depth' = Set(depth, Ev.g, Get0(depth, Ev.g) + 1)
-  /\ UNCHANGED <<L, eid, held, files, q, pendq, evcur, cnt, track>>
+  /\ UNCHANGED <<L, eid, held, files, q, pendq, evcur, cnt, track, lost, fname>>
 
 \* a request that has ended holds no reservation and no unindexed file
 TraceReqEnd ==
   /\ IsEvent("ReqEnd")
   /\ LET g == Ev.g  d == Get0(depth, g) - 1 IN
      /\ Chk(d >= 0, "C14:requestEndWithoutBegin")
-     /\ depth' = Set(depth, g, d)
+     /\ depth' = Set0(depth, g, d)
      /\ d = 0 => /\ Chk(Get0(held, g) = 0, "C03:reservationLeaked")
                  /\ Chk(\A p \in DOMAIN files : files[p].owner = g => p \in IndexedNames \cup QueuedNames,
                         "C04:temporaryFileLeaked")
      /\ files' = IF d = 0 THEN [p \in DOMAIN files |-> IF files[p].owner = g THEN [files[p] EXCEPT !.owner = ""] ELSE files[p]]
                  ELSE files
-  /\ UNCHANGED <<L, eid, held, q, pendq, evcur, cnt, track>>
+  /\ UNCHANGED <<L, eid, held, q, pendq, evcur, cnt, track, lost, fname>>
 
 \* a snapshot taken by the driver while no request is in flight: ordered keys,
 \* counters and, at quiescence, the directory listing
@@ -251,30 +264,33 @@ TraceSnapshot ==
   /\ Chk(Ev.keys = KeysInOrder(L), "C05:recencyOrder")
   /\ Scalars(L)
   /\ Chk(pendq = <<>>, "C07:operationInProgressAtSnapshot")
+  \* C05: the keys the last operation hit or stored are the most recently used ones
+  /\ LET U == Range(Ev.used)  n == Cardinality(U)  ks == KeysInOrder(L) IN
+       Chk(n <= Len(ks) /\ {ks[i] : i \in 1..n} = U, "C05:useRefreshesRecency")
   /\ Ev.quiescent =>
        /\ Chk(L.resv = 0, "C03:reservedAtQuiescence")
        /\ Chk(q = <<>> /\ evcur = <<>>, "C04:removalBacklogAtQuiescence")
        /\ Ev.hasdir =>
-            /\ Chk({Ev.dir[i].path : i \in DOMAIN Ev.dir} = IndexedNames, "C04:directoryEqualsIndex")
+            /\ Chk({Ev.dir[i].path : i \in DOMAIN Ev.dir} = IndexedNames \ lost, "C04:directoryEqualsIndex")
             /\ Chk(\A i \in DOMAIN Ev.dir : \A j \in DOMAIN L.ll :
-                     (FileName(L.elems[L.ll[j]]) = Ev.dir[i].path /\ Ev.dir[i].path \notin Range(Ev.damaged))
+                     (fname[L.ll[j]] = Ev.dir[i].path /\ Ev.dir[i].path \notin Range(Ev.damaged))
                         => L.elems[L.ll[j]].dsz = Ev.dir[i].size,
                    "C04:fileSize")
-            /\ Chk(DOMAIN files = IndexedNames, "C04:trackedFilesEqualIndex")
-  /\ UNCHANGED <<L, eid, held, depth, files, q, pendq, evcur, cnt, track>>
+            /\ Chk(DOMAIN files = IndexedNames \ lost, "C04:trackedFilesEqualIndex")
+  /\ UNCHANGED <<L, eid, held, depth, files, q, pendq, evcur, cnt, track, lost, fname>>
 
 TraceNote ==
   /\ IsEvent("Note")
-  /\ UNCHANGED <<L, eid, held, depth, files, q, pendq, evcur, cnt, track>>
+  /\ UNCHANGED <<L, eid, held, depth, files, q, pendq, evcur, cnt, track, lost, fname>>
 
 TraceInit ==
   /\ l = 1 /\ L = NewLru(0, 0) /\ eid = <<>> /\ held = <<>> /\ depth = <<>> /\ files = <<>>
-  /\ evcur = <<>> /\ q = <<>> /\ pendq = <<>> /\ cnt = Cnt0 /\ track = FALSE
+  /\ evcur = <<>> /\ q = <<>> /\ pendq = <<>> /\ cnt = Cnt0 /\ track = FALSE /\ lost = {} /\ fname = <<>>
 
 TraceNext ==
   \/ TraceReset \/ TraceAdd \/ TraceGet \/ TraceReserve \/ TraceUnreserve \/ TraceRemove
   \/ TraceQueue \/ TraceEvictStart \/ TraceEvictDone \/ TraceFileCreate \/ TraceFileComplete \/ TraceFileRemove
-  \/ TraceReqBegin \/ TraceReqEnd \/ TraceSnapshot \/ TraceNote
+  \/ TraceFileLost \/ TraceReqBegin \/ TraceReqEnd \/ TraceSnapshot \/ TraceNote
 
 TraceSpec == TraceInit /\ [][TraceNext]_vars
 
@@ -291,7 +307,10 @@ InvMapList    == MapListConsistent(L)          \* C07
 InvCount      == CountExact(L)                 \* C03
 \* C04: no indexed entry lacks its file (entries whose hand-over to the remover is
 \* already logged while their index operation has not ended are still in L)
-InvFiles      == track => (IndexedNames \ PendNames) \subseteq DOMAIN files
+\* (implied by the step checks indexedFileMissing / indexedFileRemoved; kept for
+\* reference and for small traces, not listed in LruTrace.cfg because evaluating
+\* it in every state is quadratic in the number of entries)
+InvFiles      == track => (IndexedNames \ (PendNames \cup lost)) \subseteq DOMAIN files
 
 TraceAccepted == TLCGet("stats").diameter - 1 = Len(Trace)
 =============================================================================
